@@ -421,8 +421,13 @@ func (g *generatorContext) parseLiteral(lex *structLexer) (node, error) { // nol
 }
 
 func indirectType(t reflect.Type) reflect.Type {
-	if t.Kind() == reflect.Ptr || t.Kind() == reflect.Slice {
-		return indirectType(t.Elem())
+	start := t
+	for i := 0; t.Kind() == reflect.Ptr || t.Kind() == reflect.Slice; i++ {
+		t = t.Elem()
+		if t == start || i > 64 {
+			// A type defined in terms of itself ("type L []L") has nothing to indirect to.
+			return start
+		}
 	}
 	return t
 }
